@@ -207,6 +207,9 @@ fn check(p: &P6, st: &mut Stats) -> CheckResult {
         65537..=1048576 => "c06:len<=1M",
         _ => "c06:len>1M",
     });
+    if body.len() >= 2_000_000 && (body.len() % 1_000_000 == 0 || body.len() % (1 << 20) == 0) {
+        st.label("c06:len:whole-megabytes>=2");
+    }
     if body.len() > 4096 || nchunks >= 2 || !matches!(p.spec.class % case::N_CLASSES, 3 | 7) {
         st.nontrivial(&("c06", body.len(), p.spec.class % case::N_CLASSES, nchunks.min(4), p.entry, p.backend, p.snapshot));
     }
@@ -231,6 +234,13 @@ fn len_strategy(max_random: u32, max_pow: u32) -> BoxedStrategy<u32> {
         2 => (1u32..=max_pow, prop::sample::select(vec![-1i32, 0, 1])).prop_map(|(k, d)| (1u32 << k).saturating_add_signed(d).max(1)),
         3 => 1u32..=max_random,
         1 => 1u32..=8192,
+        // round decimal and binary multiples (where a response or storage layer that works in
+        // slices would have its seams), up to a few MB quick / the random maximum thorough
+        2 => (prop::sample::select(vec![1000u32, 10_000, 65_536, 100_000, 1_000_000, 1 << 20]), 1u32..=64, prop::sample::select(vec![-1i32, 0, 0, 1])).prop_map(move |(unit, k, d)| {
+            let cap = max_random.max(4_200_000);
+            let k = if (k as u64) * (unit as u64) > cap as u64 { k % (cap / unit).max(1) + 1 } else { k };
+            (k * unit).saturating_add_signed(d).max(1)
+        }),
     ]
     .boxed()
 }
@@ -267,7 +277,7 @@ pub fn run(tier: Tier, seed: u64) -> Report {
         tier,
         seed,
         "exploration",
-        "generated payloads: lengths from a boundary-heavy distribution (1..64, a dense sweep 3800..4200 around SQLite's overflow threshold, k*4096 +-{0,1,2,40}, powers of two +-1, random up to 1 MiB quick / 32 MiB thorough, and limit-1 / limit exactly), eight byte classes (zeros, 0xFF, random, numeric-looking text, UTF-8, invalid UTF-8, embedded NULs, id-like text), generated chunk splittings; versions and snapshots; memory and SQLite; through the library, the in-process HTTP service (payload chunks) and a real socket (Content-Length and chunked, generated write sizes). Round-trip oracle: bytes, version id and parent id read back equal what was uploaded/acknowledged - right away, after reopening the database, and after later uploads. Non-trivial: longer than one page, or >=2 chunks, or a byte class other than ASCII text; distinct by (length, class, chunk bucket, entry, backend, kind).",
+        "generated payloads: lengths from a boundary-heavy distribution (1..64, a dense sweep 3800..4200 around SQLite's overflow threshold, k*4096 +-{0,1,2,40}, powers of two +-1, round multiples k*{1000, 10^4, 65536, 10^5, 10^6, 2^20} +-{0,1}, random up to 1 MiB quick / 32 MiB thorough, and limit-1 / limit exactly), eight byte classes (zeros, 0xFF, random, numeric-looking text, UTF-8, invalid UTF-8, embedded NULs, id-like text), generated chunk splittings; versions and snapshots; memory and SQLite; through the library, the in-process HTTP service (payload chunks) and a real socket (Content-Length and chunked, generated write sizes). Round-trip oracle: bytes, version id and parent id read back equal what was uploaded/acknowledged - right away, after reopening the database, and after later uploads. Non-trivial: longer than one page, or >=2 chunks, or a byte class other than ASCII text; distinct by (length, class, chunk bucket, entry, backend, kind).",
     );
     rep.assume("the 1..100 MiB range is sampled, densely only near structural boundaries; socket cases are bounded to 8 MiB");
     rep.assume("a socket exchange that ends without a status line is inconclusive for that case, never a violation");
